@@ -90,17 +90,17 @@ Proof.
 Qed.
 
 (* ---------- checks over all complete executions ---------- *)
-Definition P_image_partial (r : root) (ob : obs) : bool :=
-  r_strict r || negb (no_transport ob) || image_ok r ob.
+Definition P_image_notransport (r : root) (ob : obs) : bool :=
+  negb (no_transport ob) || image_ok r ob.
 Definition P_image_or_unknown (r : root) (ob : obs) : bool :=
   image_ok r ob || (str_eqb (o_final ob) [] && some_rpcerr ob).
 Definition P_mon (r : root) (ob : obs) : bool :=
-  memN (mon16 (CRun r [] ob)) [0; 1; 2; 6].
+  memN (mon16 (CRun r [] ob)) [0; 1].
 Definition P_mon_clean (r : root) (ob : obs) : bool :=
-  r_strict r || negb (no_transport ob) || N.eqb (mon16 (CRun r [] ob)) 0.
+  negb (no_transport ob) || N.eqb (mon16 (CRun r [] ob)) 0.
 
-Lemma chk_image_partial nargs :
-  forallb (fun r => forallb (P_image_partial r) (leaves_root r)) (roots implemented_events nargs) = true.
+Lemma chk_image_notransport nargs :
+  forallb (fun r => forallb (P_image_notransport r) (leaves_root r)) (roots task_events nargs) = true.
 Proof. vm_compute. reflexivity. Qed.
 
 Lemma chk_image_or_unknown nargs :
@@ -108,7 +108,7 @@ Lemma chk_image_or_unknown nargs :
 Proof. vm_compute. reflexivity. Qed.
 
 Lemma chk_success nargs :
-  forallb (fun r => forallb (success_ok r) (leaves_root r)) (roots implemented_events nargs) = true.
+  forallb (fun r => forallb (success_ok r) (leaves_root r)) (roots task_events nargs) = true.
 Proof. vm_compute. reflexivity. Qed.
 
 Lemma chk_rollback nargs :
@@ -120,21 +120,20 @@ Lemma chk_mon nargs :
 Proof. vm_compute. reflexivity. Qed.
 
 Lemma chk_mon_clean nargs :
-  forallb (fun r => forallb (P_mon_clean r) (leaves_root r)) (roots implemented_events nargs) = true.
+  forallb (fun r => forallb (P_mon_clean r) (leaves_root r)) (roots task_events nargs) = true.
 Proof. vm_compute. reflexivity. Qed.
 
 (* ---------- clause 1: image ---------- *)
-Lemma image_partial : forall mode evt dst src nargs sc,
-  In mode modes -> In (evt, dst) implemented_events -> In src o2_states ->
-  let ob := run_root (mk_root mode false evt dst src nargs) sc in
+Lemma image_notransport : forall mode strict evt dst src nargs sc,
+  In mode modes -> In (evt, dst) task_events -> In src o2_states ->
+  let ob := run_root (mk_root mode strict evt dst src nargs) sc in
   no_transport ob = true ->
   o_final ob = image mode (o_dev ob).
 Proof.
-  intros mode evt dst src nargs sc Hm He Hs ob Hnt.
-  pose proof (all_runs _ _ (chk_image_partial nargs) _ sc
-                       (in_roots _ nargs mode false evt dst src Hm He Hs)) as H.
-  fold ob in H. unfold P_image_partial in H.
-  change (r_strict (mk_root mode false evt dst src nargs)) with false in H.
+  intros mode strict evt dst src nargs sc Hm He Hs ob Hnt.
+  pose proof (all_runs _ _ (chk_image_notransport nargs) _ sc
+                       (in_roots _ nargs mode strict evt dst src Hm He Hs)) as H.
+  fold ob in H. unfold P_image_notransport in H.
   rewrite Hnt in H. cbn [negb orb] in H. unfold image_ok in H.
   apply str_eqb_spec in H. exact H.
 Qed.
@@ -172,26 +171,9 @@ Proof.
   specialize (H Hm He Hs). vm_compute in H. discriminate H.
 Qed.
 
-Lemma image_notransport_refuted :
-  ~ (forall mode strict evt dst src nargs sc,
-        In mode modes -> In (evt, dst) implemented_events -> In src o2_states ->
-        let ob := run_root (mk_root mode strict evt dst src nargs) sc in
-        no_transport ob = true ->
-        o_final ob = image mode (o_dev ob)).
-Proof.
-  intro H.
-  specialize (H MODE_FAIRMQ true E_CONFIGURE O2_CONFIGURED O2_STANDBY 1
-                [Done; Done; Refused; Done; Done]).
-  cbn zeta in H.
-  assert (Hm : In MODE_FAIRMQ modes) by (cbn; tauto).
-  assert (He : In (E_CONFIGURE, O2_CONFIGURED) implemented_events) by (cbn; tauto).
-  assert (Hs : In O2_STANDBY o2_states) by (cbn; tauto).
-  specialize (H Hm He Hs). vm_compute in H. specialize (H eq_refl). discriminate H.
-Qed.
-
 (* ---------- clause 3: success only in the destination ---------- *)
 Lemma success_sound : forall mode strict evt dst src nargs sc,
-  In mode modes -> In (evt, dst) implemented_events -> In src o2_states ->
+  In mode modes -> In (evt, dst) task_events -> In src o2_states ->
   let ob := run_root (mk_root mode strict evt dst src nargs) sc in
   o_err ob = false ->
   o_dev ob = dev_of mode dst /\ o_final ob = dst.
@@ -202,23 +184,6 @@ Proof.
   fold ob in H. unfold success_ok in H. rewrite Herr in H. cbn [orb] in H.
   apply andb_true_iff in H. destruct H as [H1 H2].
   apply str_eqb_spec in H1. apply str_eqb_spec in H2. split; [exact H1|exact H2].
-Qed.
-
-Lemma success_all_events_refuted :
-  ~ (forall mode strict evt dst src nargs sc,
-        In mode modes -> In (evt, dst) task_events -> In src o2_states ->
-        let ob := run_root (mk_root mode strict evt dst src nargs) sc in
-        o_err ob = false ->
-        o_dev ob = dev_of mode dst /\ o_final ob = dst).
-Proof.
-  intro H.
-  specialize (H MODE_FAIRMQ false E_GO_ERROR O2_ERROR O2_RUNNING 1 []).
-  cbn zeta in H.
-  assert (Hm : In MODE_FAIRMQ modes) by (cbn; tauto).
-  assert (He : In (E_GO_ERROR, O2_ERROR) task_events) by (cbn; tauto).
-  assert (Hs : In O2_RUNNING o2_states) by (cbn; tauto).
-  specialize (H Hm He Hs). vm_compute in H. specialize (H eq_refl).
-  destruct H as [H _]. discriminate H.
 Qed.
 
 (* ---------- clause 2: roll-back ---------- *)
@@ -286,20 +251,23 @@ Definition legit_transitions : list (str * str * str) :=
     (E_EXIT, O2_DONE, O2_STANDBY); (E_EXIT, O2_DONE, O2_CONFIGURED) ].
 
 Lemma chk_compliant nargs :
-  forallb (fun mode => forallb (fun t =>
-     let ob := run_root (mk_root mode false (fst (fst t)) (snd (fst t)) (snd t) nargs) [] in
+  forallb (fun mode => forallb (fun strict => forallb (fun t =>
+     let ob := run_root (mk_root mode strict (fst (fst t)) (snd (fst t)) (snd t) nargs) [] in
      negb (o_err ob) && str_eqb (o_final ob) (snd (fst t))
-     && str_eqb (o_dev ob) (dev_of mode (snd (fst t)))) legit_transitions) modes = true.
+     && str_eqb (o_dev ob) (dev_of mode (snd (fst t)))) legit_transitions) [false; true]) modes = true.
 Proof. vm_compute. reflexivity. Qed.
 
-Lemma compliant_partial : forall mode evt dst src nargs sc,
+Lemma compliant : forall mode strict evt dst src nargs sc,
   In mode modes -> In (evt, dst, src) legit_transitions -> Forall (fun o => o = Done) sc ->
-  let ob := run_root (mk_root mode false evt dst src nargs) sc in
+  let ob := run_root (mk_root mode strict evt dst src nargs) sc in
   o_err ob = false /\ o_final ob = dst /\ o_dev ob = dev_of mode dst.
 Proof.
-  intros mode evt dst src nargs sc Hm Ht Hsc ob.
+  intros mode strict evt dst src nargs sc Hm Ht Hsc ob.
   unfold ob, run_root. rewrite run_all_done by exact Hsc.
   pose proof (chk_compliant nargs) as H. rewrite forallb_forall in H. specialize (H mode Hm).
+  rewrite forallb_forall in H.
+  assert (Hst : In strict [false; true]) by (destruct strict; cbn; tauto).
+  specialize (H strict Hst).
   rewrite forallb_forall in H. specialize (H (evt, dst, src) Ht). cbn [fst snd] in H.
   unfold run_root in H.
   apply andb_true_iff in H. destruct H as [H H3]. apply andb_true_iff in H. destruct H as [H1 H2].
@@ -307,25 +275,11 @@ Proof.
   split; [exact H1|]. split; [exact H2|exact H3].
 Qed.
 
-Lemma compliant_refuted :
-  ~ (forall mode strict evt dst src nargs sc,
-        In mode modes -> In (evt, dst, src) legit_transitions -> Forall (fun o => o = Done) sc ->
-        let ob := run_root (mk_root mode strict evt dst src nargs) sc in
-        o_err ob = false /\ o_final ob = dst /\ o_dev ob = dev_of mode dst).
-Proof.
-  intro H.
-  specialize (H MODE_FAIRMQ true E_EXIT O2_DONE O2_CONFIGURED 1 []).
-  cbn zeta in H.
-  assert (Hm : In MODE_FAIRMQ modes) by (cbn; tauto).
-  assert (Ht : In (E_EXIT, O2_DONE, O2_CONFIGURED) legit_transitions) by (cbn; tauto).
-  specialize (H Hm Ht (Forall_nil _)). vm_compute in H. destruct H as [H _]. discriminate H.
-Qed.
-
 (* ---------- the monitor on the model ---------- *)
 Lemma monitor_bridge : forall mode strict evt dst src nargs sc,
   In mode modes -> In (evt, dst) task_events -> In src o2_states ->
   let r := mk_root mode strict evt dst src nargs in
-  In (mon16 (CRun r sc (run_root r sc))) [0; 1; 2; 6].
+  In (mon16 (CRun r sc (run_root r sc))) [0; 1].
 Proof.
   intros mode strict evt dst src nargs sc Hm He Hs r.
   pose proof (all_runs _ _ (chk_mon nargs) _ sc
@@ -336,17 +290,17 @@ Proof.
   apply N.eqb_eq in E. rewrite E. exact Hx.
 Qed.
 
-Lemma monitor_clean : forall mode evt dst src nargs sc,
-  In mode modes -> In (evt, dst) implemented_events -> In src o2_states ->
-  let r := mk_root mode false evt dst src nargs in
+Lemma monitor_clean : forall mode strict evt dst src nargs sc,
+  In mode modes -> In (evt, dst) task_events -> In src o2_states ->
+  let r := mk_root mode strict evt dst src nargs in
   no_transport (run_root r sc) = true ->
   mon16 (CRun r sc (run_root r sc)) = 0.
 Proof.
-  intros mode evt dst src nargs sc Hm He Hs r Hnt.
+  intros mode strict evt dst src nargs sc Hm He Hs r Hnt.
   pose proof (all_runs _ _ (chk_mon_clean nargs) _ sc
-                       (in_roots _ nargs mode false evt dst src Hm He Hs)) as H.
+                       (in_roots _ nargs mode strict evt dst src Hm He Hs)) as H.
   fold r in H. unfold P_mon_clean in H.
-  change (r_strict r) with false in H. rewrite Hnt in H. cbn [negb orb] in H.
+  rewrite Hnt in H. cbn [negb orb] in H.
   apply N.eqb_eq in H. exact H.
 Qed.
 
